@@ -55,6 +55,59 @@ type c12Case struct {
 	Args     []string `json:"args"`
 	Begin    []c12Op  `json:"begin"`
 	End      []c12Op  `json:"end"`
+	// phases and early exits (judged by the oracle only; the Lean model covers BEGIN ops, the whole main loop, END ops)
+	ExitBegin *int      `json:"exit_begin,omitempty"` // BEGIN ends with exit (-1: no status): the main loop is skipped, END still runs
+	Rule      []c12Op   `json:"rule,omitempty"`       // operations performed while the first record is processed
+	RulePlace string    `json:"rule_place,omitempty"` // action | pattern (a function called from the pattern) | func (called from the action)
+	RuleEnd   string    `json:"rule_end,omitempty"`   // what the rule does after them: "" | exit | exit2 | next | nextfile
+	InFunc    bool      `json:"in_func,omitempty"`    // the BEGIN and END operations sit in functions called from those blocks
+	ArgvBegin []c12Edit `json:"argv_begin,omitempty"` // ARGV/ARGC edits at the start of BEGIN
+	ArgvRule  []c12Edit `json:"argv_rule,omitempty"`  // operands appended while the first record is processed
+}
+
+// c12Edit: append (ARGV[ARGC++] = n) | set (ARGV[i] = n) | readd (delete ARGV[i]; ARGV[i] = n)
+type c12Edit struct {
+	K string `json:"k"`
+	I int    `json:"i,omitempty"`
+	N string `json:"n"`
+}
+
+func (cs *c12Case) ruleExits() bool { return cs.RuleEnd == "exit" || cs.RuleEnd == "exit2" }
+
+// modelled: the case is within what the Lean model expresses (correspondence is run on it)
+func (cs *c12Case) modelled() bool {
+	return cs.ExitBegin == nil && len(cs.Rule) == 0 && len(cs.ArgvRule) == 0 && cs.RuleEnd == ""
+}
+
+// effArgs: the operands the main loop sees (after the edits that are executed)
+func (cs *c12Case) effArgs() []string {
+	args := append([]string{}, cs.Args...)
+	apply := func(es []c12Edit) {
+		for _, e := range es {
+			switch {
+			case e.K == "append":
+				args = append(args, e.N)
+			case e.I >= 1 && e.I <= len(args):
+				args[e.I-1] = e.N
+			default:
+				// ARGV[i] beyond ARGC-1: ARGC is unchanged, the main loop never looks at it
+			}
+		}
+	}
+	apply(cs.ArgvBegin)
+	if cs.ExitBegin == nil && !cs.ruleExits() {
+		apply(cs.ArgvRule)
+	}
+	return args
+}
+
+func (cs *c12Case) mainIndex() int {
+	for i, op := range cs.ops() {
+		if op.K == "main" {
+			return i
+		}
+	}
+	return -1
 }
 
 var (
@@ -130,9 +183,8 @@ func c12NameExpr(d, sym string, form int, vars *[]string, idx int) string {
 }
 
 func c12Render(cs *c12Case, d string) (src string, vars []string) {
-	var b strings.Builder
 	idx := 0
-	emit := func(ops []c12Op) {
+	emit := func(b *strings.Builder, ops []c12Op) {
 		for _, op := range ops {
 			i := idx
 			idx++
@@ -144,38 +196,97 @@ func c12Render(cs *c12Case, d string) (src string, vars []string) {
 			case "gt", "app", "pipe":
 				r := map[string]string{"gt": ">", "app": ">>", "pipe": "|"}[op.K]
 				if op.Form%2 == 0 {
-					fmt.Fprintf(&b, "  print \"W%d\" %s %s; t(%d, 0, \"\")\n", i, r, n, i)
+					fmt.Fprintf(b, "  print \"W%d\" %s %s; t(%d, 0, \"\")\n", i, r, n, i)
 				} else {
-					fmt.Fprintf(&b, "  printf \"%%s\\n\", \"W%d\" %s %s; t(%d, 0, \"\")\n", i, r, n, i)
+					fmt.Fprintf(b, "  printf \"%%s\\n\", \"W%d\" %s %s; t(%d, 0, \"\")\n", i, r, n, i)
 				}
 			case "gf":
 				if op.Form%3 == 2 {
-					fmt.Fprintf(&b, "  $0 = \"\"; r = (getline < %s); t(%d, r, $0)\n", n, i)
+					fmt.Fprintf(b, "  $0 = \"\"; r = (getline < %s); t(%d, r, $0)\n", n, i)
 				} else {
-					fmt.Fprintf(&b, "  v = \"\"; r = (getline v < %s); t(%d, r, v)\n", n, i)
+					fmt.Fprintf(b, "  v = \"\"; r = (getline v < %s); t(%d, r, v)\n", n, i)
 				}
 			case "gc":
 				if op.Form%3 == 2 {
-					fmt.Fprintf(&b, "  $0 = \"\"; r = (%s | getline); t(%d, r, $0)\n", n, i)
+					fmt.Fprintf(b, "  $0 = \"\"; r = (%s | getline); t(%d, r, $0)\n", n, i)
 				} else {
-					fmt.Fprintf(&b, "  v = \"\"; r = (%s | getline v); t(%d, r, v)\n", n, i)
+					fmt.Fprintf(b, "  v = \"\"; r = (%s | getline v); t(%d, r, v)\n", n, i)
 				}
 			case "sys":
-				fmt.Fprintf(&b, "  r = system(%s); t(%d, r, \"\")\n", n, i)
+				fmt.Fprintf(b, "  r = system(%s); t(%d, r, \"\")\n", n, i)
 			case "gl":
-				fmt.Fprintf(&b, "  v = \"\"; r = (getline v); t(%d, r, v)\n", i)
+				fmt.Fprintf(b, "  v = \"\"; r = (getline v); t(%d, r, v)\n", i)
 			case "close":
-				fmt.Fprintf(&b, "  r = close(%s); t(%d, r, \"\")\n", n, i)
+				fmt.Fprintf(b, "  r = close(%s); t(%d, r, \"\")\n", n, i)
 			case "ff":
-				fmt.Fprintf(&b, "  r = fflush(%s); t(%d, r, \"\")\n", n, i)
+				fmt.Fprintf(b, "  r = fflush(%s); t(%d, r, \"\")\n", n, i)
 			}
 		}
 	}
-	b.WriteString("BEGIN {\n")
-	emit(cs.Begin)
-	b.WriteString("}\n{ t(-1, NR, FILENAME \":\" $0) }\nEND {\n  t(-3, 0, \"\")\n")
-	idx++ // the main loop is operation number len(Begin)
-	emit(cs.End)
+	edits := func(b *strings.Builder, es []c12Edit, base int) {
+		for k, e := range es {
+			n := c12NameExpr(d, e.N, k+1, &vars, base+k)
+			switch e.K {
+			case "append":
+				fmt.Fprintf(b, "  ARGV[ARGC++] = %s\n", n)
+			case "set":
+				fmt.Fprintf(b, "  ARGV[%d] = %s\n", e.I, n)
+			default:
+				fmt.Fprintf(b, "  delete ARGV[%d]; ARGV[%d] = %s\n", e.I, e.I, n)
+			}
+		}
+	}
+	var bb, rb, eb, eBegin, eRule strings.Builder
+	emit(&bb, cs.Begin)
+	if cs.ExitBegin == nil {
+		emit(&rb, cs.Rule)
+		if !cs.ruleExits() {
+			idx++ // the (rest of the) main loop is an operation of its own
+		}
+	}
+	emit(&eb, cs.End)
+	edits(&eBegin, cs.ArgvBegin, 1000)
+	edits(&eRule, cs.ArgvRule, 2000)
+
+	var b strings.Builder
+	if cs.InFunc {
+		b.WriteString("function fbegin() {\n" + bb.String() + "}\nfunction fend() {\n" + eb.String() + "}\n")
+	}
+	b.WriteString("BEGIN {\n" + eBegin.String())
+	if cs.InFunc {
+		b.WriteString("  fbegin()\n")
+	} else {
+		b.WriteString(bb.String())
+	}
+	if cs.ExitBegin != nil {
+		if *cs.ExitBegin < 0 {
+			b.WriteString("  exit\n")
+		} else {
+			fmt.Fprintf(&b, "  exit %d\n", *cs.ExitBegin)
+		}
+	}
+	b.WriteString("}\n")
+	ruleBody := eRule.String() + rb.String()
+	ruleEnd := map[string]string{"": "", "exit": "    exit\n", "exit2": "    exit 2\n", "next": "    next\n", "nextfile": "    nextfile\n"}[cs.RuleEnd]
+	hasRule := ruleBody != "" || ruleEnd != ""
+	switch {
+	case !hasRule:
+		b.WriteString("{ t(-1, NR, FILENAME \":\" $0) }\n")
+	case cs.RulePlace == "pattern":
+		b.WriteString("function fpat() {\n  if (NR == 1) {\n" + ruleBody + "  }\n  return 1\n}\n")
+		b.WriteString("fpat() {\n  t(-1, NR, FILENAME \":\" $0)\n  if (NR == 1) {\n" + ruleEnd + "  }\n}\n")
+	case cs.RulePlace == "func":
+		b.WriteString("function frule() {\n" + ruleBody + "}\n")
+		b.WriteString("{\n  t(-1, NR, FILENAME \":\" $0)\n  if (NR == 1) {\n    frule()\n" + ruleEnd + "  }\n}\n")
+	default:
+		b.WriteString("{\n  t(-1, NR, FILENAME \":\" $0)\n  if (NR == 1) {\n" + ruleBody + ruleEnd + "  }\n}\n")
+	}
+	b.WriteString("END {\n  t(-3, 0, \"\")\n")
+	if cs.InFunc {
+		b.WriteString("  fend()\n")
+	} else {
+		b.WriteString(eb.String())
+	}
 	b.WriteString("  t(-2, 0, \"\")\n}\n")
 	return b.String(), vars
 }
@@ -366,9 +477,16 @@ type c12OpObs struct {
 	Recs  []string // main loop: FILENAME:$0 per record
 }
 
+// ops: the operations in the order in which a complete run executes them
 func (cs *c12Case) ops() []c12Op {
 	ops := append([]c12Op{}, cs.Begin...)
-	ops = append(ops, c12Op{K: "main"})
+	if cs.ExitBegin != nil {
+		return append(ops, cs.End...) // exit in BEGIN: no input is read, END runs
+	}
+	ops = append(ops, cs.Rule...)
+	if !cs.ruleExits() {
+		ops = append(ops, c12Op{K: "main"}) // (the rest of) the pattern-action loop
+	}
 	return append(ops, cs.End...)
 }
 
@@ -376,7 +494,7 @@ func (cs *c12Case) ops() []c12Op {
 func c12Split(cs *c12Case, obs *c12Obs) (per []c12OpObs, failing int) {
 	ops := cs.ops()
 	per = make([]c12OpObs, len(ops))
-	mainIdx := len(cs.Begin)
+	mainIdx := cs.mainIndex() // -1: the run skips the main loop (exit in BEGIN) or leaves it from the first record (exit in the rule)
 	cur := 0
 	endSeen := false
 	for _, e := range obs.Events {
@@ -388,21 +506,28 @@ func c12Split(cs *c12Case, obs *c12Obs) (per []c12OpObs, failing int) {
 		}
 		switch {
 		case e.I == -1:
-			per[mainIdx].Recs = append(per[mainIdx].Recs, e.V)
+			if mainIdx >= 0 {
+				per[mainIdx].Recs = append(per[mainIdx].Recs, e.V)
+			}
 		case e.I == -2:
 			endSeen = true
 		case e.I == -3:
-			per[mainIdx].Done = true
-			cur = mainIdx + 1
+			if mainIdx >= 0 {
+				per[mainIdx].Done = true
+			}
+			cur = len(ops) - len(cs.End)
 		default:
-			if e.I > mainIdx && !per[mainIdx].Done {
+			if e.I < 0 || e.I >= len(per) {
+				continue
+			}
+			if mainIdx >= 0 && e.I > mainIdx && !per[mainIdx].Done {
 				per[mainIdx].Done = true
 			}
 			per[e.I].Done, per[e.I].R, per[e.I].V = true, e.R, e.V
 			cur = e.I + 1
 		}
 	}
-	if endSeen {
+	if endSeen && mainIdx >= 0 {
 		per[mainIdx].Done = true
 	}
 	failing = -1
@@ -584,15 +709,35 @@ func c12Oracle(cs *c12Case, obs *c12Obs) (bad []c12Verdict, attempts int, swallo
 			}
 		}
 	}
+	// a run that reports no error must have run to the end of END (the programs never exit from END): an operation that
+	// was abandoned without an error — e.g. a refused one whose error was dropped — shows up here
+	endReached := false
+	for _, e := range obs.Events {
+		if e.T && e.I == -2 {
+			endReached = true
+		}
+	}
+	if obs.Err == "" && !endReached {
+		first := "?"
+		for i, op := range ops {
+			if !per[i].Done {
+				first = fmt.Sprintf("operation %d (%s %q)", i, op.K, op.N)
+				break
+			}
+		}
+		bad = append(bad, c12Verdict{What: "the run returned no error but stopped before the end of the program: " + first + " was abandoned silently",
+			Got: "err=nil, END not completed", Want: "either the operation completes or the run ends with its error"})
+	}
 	for _, st := range obs.Stale {
 		bad = append(bad, c12Verdict{What: "a reused Interpreter opened a file through the OpenFile function of an earlier Execute call, not the one configured for this run", Got: st})
 	}
 	// (5) an attempt is an error at that operation; (6) standard input stays available, under every flag setting
 	open := map[string]bool{}
 	stdinUsed := false
-	mainIdx := len(cs.Begin)
+	mainIdx := len(cs.Begin) // operations before this index run in BEGIN
+	hasMain := cs.mainIndex() >= 0
 	regularOperands := 0
-	for _, a := range cs.Args {
+	for _, a := range cs.effArgs() {
 		if a != "" && a != "-" {
 			regularOperands++
 		}
@@ -649,7 +794,7 @@ func c12Oracle(cs *c12Case, obs *c12Obs) (bad []c12Verdict, attempts int, swallo
 		}
 		if op.K == "main" {
 			wantsStdin, onlyEmpty := false, true
-			for _, a := range cs.Args {
+			for _, a := range cs.effArgs() {
 				if a == "-" {
 					wantsStdin = true
 				}
@@ -657,7 +802,7 @@ func c12Oracle(cs *c12Case, obs *c12Obs) (bad []c12Verdict, attempts int, swallo
 					onlyEmpty = false
 				}
 			}
-			if per[i].Done && !stdinUsed && (wantsStdin || onlyEmpty) {
+			if per[i].Done && !stdinUsed && (wantsStdin || onlyEmpty) && len(cs.Rule) == 0 && cs.RuleEnd == "" {
 				got := false
 				for _, r := range per[i].Recs {
 					if strings.HasSuffix(r, ":STDIN1") {
@@ -700,7 +845,7 @@ func c12Oracle(cs *c12Case, obs *c12Obs) (bad []c12Verdict, attempts int, swallo
 			delete(open, op.N)
 		}
 	}
-	if cs.NoReads && obs.Err == "" && regularOperands > 0 {
+	if cs.NoReads && obs.Err == "" && regularOperands > 0 && hasMain {
 		bad = append(bad, c12Verdict{What: "NoFileReads is set, the operands name a file, and the run ended without an error",
 			Got: fmt.Sprintf("%d regular operands, %d refused through getline returning -1", regularOperands, swallowed)})
 	}
@@ -724,11 +869,11 @@ func c12LeanReq(cs *c12Case) string {
 		ex[i] = vh.HxS(f)
 	}
 	b.WriteString(strings.Join(ex, ","))
-	if len(cs.Args) == 0 {
+	if eff := cs.effArgs(); len(eff) == 0 {
 		b.WriteString(" .")
 	} else {
-		as := make([]string, len(cs.Args))
-		for i, a := range cs.Args {
+		as := make([]string, len(eff))
+		for i, a := range eff {
 			as[i] = vh.HxS(a)
 		}
 		b.WriteString(" " + strings.Join(as, ","))
@@ -1023,6 +1168,60 @@ func c12Corpus() []c12Case {
 			res = append(res, cs)
 		}
 	}
+	// phases x early exits: the forbidden operation in END after an exit in BEGIN or in a rule, in a rule (action, a function called
+	// from the pattern, a function called from the action), in functions called from BEGIN / END; after next / nextfile
+	forbidden := []c12Op{{K: "sys", N: "sy0", Form: 1}, {K: "gt", N: "o0", Form: 2}, {K: "pipe", N: "cw0", Form: 3},
+		{K: "gc", N: "cr0", Form: 1}, {K: "gf", N: "in1", Form: 4}, {K: "app", N: "in1", Form: 1}}
+	minus1, two := -1, 2
+	for mask := 1; mask < 8; mask++ {
+		for k, op := range forbidden {
+			one := []c12Op{op}
+			for _, w := range []c12Case{
+				{ExitBegin: &minus1, End: one},
+				{ExitBegin: &two, End: one, InFunc: true},
+				{ExitBegin: &two, Begin: []c12Op{{K: "gl"}}, End: one, Args: []string{"-"}},
+				{RuleEnd: "exit", End: one},
+				{RuleEnd: "exit2", End: one, InFunc: true},
+				{RuleEnd: "exit", RulePlace: "pattern", End: one, Args: []string{"-", "in0"}},
+				{Rule: one, RulePlace: "action"},
+				{Rule: one, RulePlace: "pattern"},
+				{Rule: one, RulePlace: "func", RuleEnd: "next"},
+				{RuleEnd: "nextfile", End: one},
+				{RuleEnd: "next", End: append([]c12Op{{K: "gl"}}, op)}, // END: a getline that hits EOF, then the operation
+				{Begin: one, InFunc: true},
+				{End: one, InFunc: true},
+			} {
+				if (k+mask)%2 == 0 && w.Rule == nil && w.ExitBegin == nil && w.RuleEnd == "" {
+					continue // keep the corpus small: the plain placements are covered above
+				}
+				cs := w
+				cs.Hook, cs.ShellOK = (k+mask)%3 != 0, true
+				c12Flags(&cs, mask)
+				res = append(res, cs)
+			}
+		}
+	}
+	// operands added or changed at run time: ARGV/ARGC edits in BEGIN (append, overwrite, delete then re-add) and from a rule
+	for mask := 0; mask < 8; mask++ {
+		for _, w := range []c12Case{
+			{ArgvBegin: []c12Edit{{K: "append", N: "in0"}}},
+			{Args: []string{"-"}, ArgvBegin: []c12Edit{{K: "append", N: "in2"}}},
+			{Args: []string{"m0"}, ArgvBegin: []c12Edit{{K: "set", I: 1, N: "in0"}}},
+			{Args: []string{"-", "in0"}, ArgvBegin: []c12Edit{{K: "readd", I: 2, N: "in2"}}, Begin: []c12Op{{K: "gl"}}},
+			{Args: []string{"in0"}, ArgvBegin: []c12Edit{{K: "set", I: 1, N: "-"}}},
+			{ArgvRule: []c12Edit{{K: "append", N: "in0"}}, RulePlace: "action"},
+			{Args: []string{"-"}, ArgvRule: []c12Edit{{K: "append", N: "in2"}}, RulePlace: "pattern"},
+			{Args: []string{""}, ArgvRule: []c12Edit{{K: "append", N: "in0"}, {K: "append", N: "in2"}}, RulePlace: "func", RuleEnd: "next"},
+			{Args: []string{"-"}, ArgvRule: []c12Edit{{K: "append", N: "m0"}}, RulePlace: "action", RuleEnd: "nextfile"},
+		} {
+			for _, hook := range []bool{true, false} {
+				cs := w
+				cs.Hook, cs.ShellOK = hook, true
+				c12Flags(&cs, mask)
+				res = append(res, cs)
+			}
+		}
+	}
 	// the shell cannot be started
 	for mask := 0; mask < 8; mask++ {
 		cs := c12Case{Hook: true, ShellOK: false, Begin: []c12Op{{K: "pipe", N: "cw0"}, {K: "gc", N: "cr0"}, {K: "sys", N: "sy0"}, {K: "close", N: "cw0"}, {K: "gt", N: "cr0", Form: 1}}}
@@ -1103,6 +1302,30 @@ func c12Random(c *vh.Ctx) c12Case {
 		m := r.Intn(8)
 		cs.Reuse = append(cs.Reuse, c12Cfg{NoExec: m&1 != 0, NoWrites: m&2 != 0, NoReads: m&4 != 0, Hook: r.Intn(2) == 0, ShellOK: r.Intn(6) != 0})
 	}
+	// phases, early exits, run-time operand edits (a third of the cases)
+	if r.Intn(3) == 0 {
+		switch r.Intn(6) {
+		case 0:
+			v := r.Intn(4) - 1
+			cs.ExitBegin = &v
+		case 1, 2:
+			cs.RuleEnd = []string{"exit", "exit2", "next", "nextfile"}[r.Intn(4)]
+		}
+		cs.RulePlace = []string{"action", "pattern", "func"}[r.Intn(3)]
+		cs.InFunc = r.Intn(3) == 0
+		if cs.ExitBegin == nil && r.Intn(2) == 0 {
+			cs.Rule = gen(1+r.Intn(3), false)
+		}
+		for k, n := 0, r.Intn(3); k < n; k++ {
+			e := c12Edit{K: []string{"append", "set", "readd"}[r.Intn(3)], I: 1 + r.Intn(2), N: pick([]string{"in0", "in2", "m0", "-", ""})}
+			if r.Intn(2) == 0 || cs.ExitBegin != nil {
+				cs.ArgvBegin = append(cs.ArgvBegin, e)
+			} else {
+				e.K, e.I = "append", 0
+				cs.ArgvRule = append(cs.ArgvRule, e)
+			}
+		}
+	}
 	cs.Begin = gen(r.Intn(7), true)
 	cs.End = gen(r.Intn(5), true)
 	operandPool := []string{"in0", "in2", "in0", "m0", "-", ""}
@@ -1166,12 +1389,16 @@ func runC12(c *vh.Ctx) {
 
 	ansOf := map[int]string{}
 	if c.HasLean() {
-		reqs := make([]string, len(cases))
+		var reqs []string
+		var idx []int
 		for i := range cases {
-			reqs[i] = c12LeanReq(&cases[i])
+			if cases[i].modelled() {
+				reqs = append(reqs, c12LeanReq(&cases[i]))
+				idx = append(idx, i)
+			}
 		}
-		for i, a := range c.LeanBatch(reqs) {
-			ansOf[i] = a
+		for k, a := range c.LeanBatch(reqs) {
+			ansOf[idx[k]] = a
 		}
 	}
 	// a failing case that involves child processes is confirmed by running it again, alone (os/exec's WaitDelay can also
@@ -1221,6 +1448,29 @@ func runC12(c *vh.Ctx) {
 		c.Hit(fmt.Sprintf("flags:exec=%s,writes=%s,reads=%s", c12B(cs.NoExec), c12B(cs.NoWrites), c12B(cs.NoReads)))
 		c.Hit("hook:" + c12B(cs.Hook))
 		c.Hit(fmt.Sprintf("earlier-executes-on-same-interpreter:%d", len(cs.Reuse)))
+		if cs.ExitBegin != nil {
+			c.Hit("phase:exit-in-BEGIN-then-END")
+		}
+		if len(cs.Rule) > 0 {
+			c.Hit("phase:ops-in-rule:" + cs.RulePlace)
+		}
+		if cs.RuleEnd != "" {
+			c.Hit("phase:rule-ends-with:" + cs.RuleEnd)
+		}
+		if cs.InFunc {
+			c.Hit("phase:BEGIN/END-ops-in-functions")
+		}
+		if len(cs.ArgvBegin) > 0 {
+			c.Hit("argv-edit:BEGIN")
+		}
+		if len(cs.ArgvRule) > 0 {
+			c.Hit("argv-edit:rule")
+		}
+		if cs.modelled() {
+			c.Hit("stream:correspondence+oracle")
+		} else {
+			c.Hit("stream:oracle-only")
+		}
 		c.Hit("shell_ok:" + c12B(cs.ShellOK))
 		c.Hit(fmt.Sprintf("operands:%d", len(cs.Args)))
 		for _, op := range cs.ops() {
